@@ -424,7 +424,36 @@ def run_property(pid, res, proofs_ok, proofs_why, extra_part=None):
     if cfg is None:
         res.violation({"property": pid, "kind": "obligation", "obligation": "measured configuration: " + why,
                        "trace": trace[:40]}, found_input=False)
-        res.rule = "no schedule run: the access trace could not be mapped to a configuration"
+        # the programs no longer have the shape the model knows, so there is nothing to compare with; the
+        # schedules are still run on the real code and judged by the oracle alone, in search of a failing input
+        scheds = list(small_scope())
+        for i in range(300 if res.tier == "quick" else 5000):
+            scheds.append(gen_schedule(rng, "crash" if i % 4 == 0 else "plain"))
+        for i in range(100 if res.tier == "quick" else 2000):
+            a, b = rng.randrange(0, 12), rng.choice([2, 3, 4, 9, 10, 11, 12])
+            c2, d = rng.choice([1, 2, 3, 9, 10, 11]), rng.randrange(1, 14)
+            scheds.append([("W",)] * 11 + [("N",)] + [("W",)] * a + [("R", 0, None)] * b + [("W",)] * c2 + [("R", 0, None)] * d
+                          + [("W",)] * rng.choice([1, 2, 8, 9, 11, 12]) + [("R", 0, None)] * 40 + [("W",)] * 11 + [("R", 0, None)] * 13)
+        try:
+            outs = c.run_lines_hang_aware(binary, [line_of(PLACEHOLDER, sc) for sc in scheds], "hang")
+        except c.CheckError as e:
+            outs = []
+            res.extra["oracle_only_search_error"] = str(e)[-300:]
+        res.evaluations = len(outs)
+        bad = []
+        for sc, o in zip(scheds, outs):
+            res.count("gen:oracle-only search (configuration not recognised)")
+            try:
+                why = judge(sc, o, pid) if o != "hang" else ["the schedule did not complete within 5 s"]
+            except Exception:          # an observation stream the oracle cannot read is not a failing input
+                why = []
+            if why:
+                bad.append({"schedule": tok_str(sc), "impl": o, "why": why})
+        if bad:
+            res.violation({"property": pid, "kind": "schedule", "case": bad[0], "others": [b["schedule"][:200] for b in bad[1:4]],
+                           "predicate": "oracle of %s on the implementation's observation stream (lib/props/_shm.py judge)" % pid,
+                           "how_to_replay": "./check %s --replay <this file>" % pid})
+        res.rule = "the access trace could not be mapped to a configuration: schedules run on the implementation only and judged by the oracle"
         return None, None
     n = {"quick": 1500, "thorough": 30000}[res.tier]
     scheds, tags = [], []
@@ -448,22 +477,28 @@ def run_property(pid, res, proofs_ok, proofs_why, extra_part=None):
                       + [("W",)] * e + [("R", 0, None)] * 40 + [("W",)] * 11 + [("R", 0, None)] * 13)
         tags.append("six-bursts")
     lines = [line_of(cfg, s) for s in scheds]
-    impl = c.run_lines(binary, lines, timeout=1800)
+    # every third schedule publishes records whose as-of instants run down from one publication to the
+    # next (`shmd`; the observations are mapped back, so the model run is the same): what the records say
+    # must not matter to the protocol (the theorems hold for every record function, class RecFun)
+    desc = [k % 3 == 2 for k in range(len(lines))]
+    impl = c.run_lines(binary, [("shmd" + ln[3:]) if d else ln for ln, d in zip(lines, desc)], timeout=1800)
     model = c.run_model(lines, timeout=1800)
     res.evaluations = len(lines)
     diffs, bad = [], []
-    for s, tg, ln, i, m in zip(scheds, tags, lines, impl, model):
+    for k_, (s, tg, ln, i, m) in enumerate(zip(scheds, tags, lines, impl, model)):
         res.count("gen:" + tg)
+        if desc[k_]:
+            res.count("records:as-of running down")
         ntoks = {"W": 0, "R": 0, "C": 0, "S": 0, "N": 0, "J": 0}
         for t in s:
             ntoks[t[0]] += 1
         if ntoks["W"] and ntoks["R"]:
             res.nontriv(ln)
         if i != m:
-            diffs.append({"schedule": tok_str(s), "impl": i, "model": m})
+            diffs.append({"schedule": tok_str(s), "impl": i, "model": m, "descending_as_of": desc[k_]})
         why = judge(s, i, pid)
         if why:
-            bad.append({"schedule": tok_str(s), "impl": i, "model": m, "why": why})
+            bad.append({"schedule": tok_str(s), "impl": i, "model": m, "why": why, "descending_as_of": desc[k_]})
     res.rule = ("schedules = one token per shared access (W writer, R reader j, C crash, S restart, N new reader) executed on the real "
                 "ShmWriter/ShmReader threads under the shim's scheduler and on Machine.m_run; small-scope = every placement of one "
                 "snapshot into one update (a, b, c split points); non-trivial = schedule with writer and reader accesses interleaved")
@@ -546,10 +581,14 @@ def replay_property(pid, res, path):
     cfg, _, why = measure_cfg(binary)
     if cfg is None:
         print("configuration cannot be measured: " + why)
+        toks = parse_tok_str(sched)
+        i = c.run_lines(binary, [line_of(PLACEHOLDER, toks)])[0]
+        w = judge(toks, i, pid)
+        print("schedule %s\nimpl  %s\npredicate: %s" % (sched, i, w or "holds"))
         return 1
     toks = parse_tok_str(sched)
     ln = line_of(cfg, toks)
-    i, m = c.run_lines(binary, [ln])[0], c.run_model([ln])[0]
+    i, m = c.run_lines(binary, [("shmd" + ln[3:]) if case.get("descending_as_of") else ln])[0], c.run_model([ln])[0]
     why = judge(toks, i, pid, ra=any(t[0] == "R" and t[2] is not None for t in toks))
     print("schedule %s\nimpl  %s\nmodel %s\npredicate: %s" % (sched, i, m, why or "holds"))
     return 1 if (why or i != m) else 0
